@@ -101,8 +101,8 @@ func decodeInto(l decoder, data []byte) (res M) {
 	return
 }
 
-func runVector(v M) M {
-	out := M{"id": v["id"], "prop": v["prop"], "kind": v["kind"], "layer": v["layer"]}
+func runVector(v M) (out M) {
+	out = M{"id": v["id"], "prop": v["prop"], "kind": v["kind"], "layer": v["layer"]}
 	if e, ok := v["exp"]; ok {
 		out["exp"] = e
 	}
@@ -329,7 +329,7 @@ func cmdVectors(args []string) {
 			w = bufio.NewWriterSize(f, 1<<20)
 			files++
 		}
-		b, err := json.Marshal(r)
+		b, err := json.Marshal(scrub(r))
 		if err != nil {
 			b, _ = json.Marshal(M{"id": r["id"], "harnessError": err.Error()})
 		}
